@@ -12,6 +12,9 @@ def pieces(sid, k, n, first_table=None):
         return {1: [f"CREATE TABLE t{s} (a{s} int, b{s} varchar(5));"],
                 2: [f"CREATE TABLE t{s} (a{s} int,", f"b{s} varchar(5));"],
                 3: [f"CREATE TABLE t{s} (", f"a{s} int, b{s} varchar(5)", ");"]}[n]
+    if k == "tablens":
+        return {2: [f"CREATE TABLE t{s} (a{s} int,", f"b{s} varchar(5))"],
+                3: [f"CREATE TABLE t{s} (", f"a{s} int, b{s} varchar(5)", ")"]}[n]
     if k == "seq":
         return {1: [f"CREATE SEQUENCE sq{s} START 1;"], 2: [f"CREATE SEQUENCE sq{s}", f"START {s} INCREMENT 2;"]}[n]
     if k == "alter":
@@ -38,7 +41,8 @@ def pieces(sid, k, n, first_table=None):
     raise ValueError(k)
 
 
-TEXTS = ["note{c} alpha", "Use the customer key{c}, not the name", "GO ahead note{c}; delete later", "insert note{c} into x values (1)", "create table zz{c} (y int); drop", "note{c}, (paren) and; semi", "ALTER TABLE qq{c} ADD xx{c}", "primary key{c} = 5"]
+TEXTS = ["note{c} alpha", "Use the customer key{c}, not the name", "GO ahead note{c}; delete later", "insert note{c} into x values (1)", "create table zz{c} (y int); drop", "note{c}, (paren) and; semi", "ALTER TABLE qq{c} ADD xx{c}", "primary key{c} = 5",
+         "1) surrogate key{c}", "see note{c} (a", "key{c} :) or (("]
 
 
 def salt(beh):
@@ -89,7 +93,7 @@ def render_line(l, stmts, seed, first_table):
 
 def first_table_of(stmts):
     for i, s in enumerate(stmts, 1):
-        if s["k"] == "table":
+        if s["k"] in ("table", "tablens"):
             return i
     return None
 
@@ -112,7 +116,7 @@ def expected_entities(beh, stmts):
     for st in beh["expected"]:
         sid = st[0][1]
         k = stmts[sid - 1]["k"]
-        if k == "table":
+        if k in ("table", "tablens"):
             tables[sid] = {"kind": "table", "name": f"t{sid}", "cols": [f"a{sid}", f"b{sid}"], "uniq": []}
             out.append(tables[sid])
         elif k == "seq":
